@@ -300,13 +300,17 @@ def needsCompaction (t : Table) : Bool := t.garbage * 5 ≥ t.alloc * 2
 def isExpiredAt (k : KV) (now : Int) (t : Table) : Bool :=
   decide (Int.tdiv now 1000000 ≥ Int.tdiv (k.maxIdle + t.recycledAt) 1000000)
 
-/-- the recycle sweep of kvstore.Compaction over the Go-order list; `n` = current len(k.tables). -/
-def sweep (exp : Table → Bool) : List Table → Nat → List Table
-  | [], _ => []
+/-- the recycle sweep of kvstore.Compaction.  Go walks k.tables oldest first and removes every
+    recycled table whose idle timeout expired, but stops (`break`) when only one table is left.
+    `old` is newest first, so the recursion returns from the oldest end: the pair is (kept tables,
+    current len(k.tables)). -/
+def sweep (exp : Table → Bool) : List Table → Nat → List Table × Nat
+  | [], n => ([], n)
   | t :: ts, n =>
-    if t.state == .recycled && exp t then
-      (if n == 1 then t :: ts else sweep exp ts (n - 1))
-    else t :: sweep exp ts n
+    let (acc, m) := sweep exp ts n
+    if isRecycled t && exp t then
+      (if m == 1 then (t :: acc, m) else (acc, m - 1))
+    else (t :: acc, m)
 
 /-- records that one `evictTable t` call moves, in Range order `order` (a permutation of t's hkeys
     chosen by Go's map iteration): at most 1001, each touched by Range before GetRaw. -/
@@ -326,7 +330,7 @@ def compaction (k : KV) (now : Int) (order : List Nat) : KV × Bool :=
     (k1.resetDrained t.cf now, false)
   | none =>
     -- the read-write head is never recycled, so the sweep only ever removes tables of `old`
-    ({ k with old := (sweep (k.isExpiredAt now) k.old.reverse k.tables.length).reverse }, true)
+    ({ k with old := (sweep (k.isExpiredAt now) k.old k.tables.length).1 }, true)
 
 /-- transferIterator.Export + Drop: the first non-recycled table in Go order, and the store without it. -/
 def exportDrop (k : KV) : Option (Table × KV) :=
